@@ -100,3 +100,18 @@ var _ = fmt.Sprint
 var _ = strings.Contains
 var _ = token.NoPos
 var _ types.Type
+
+type typesConst = types.Const
+
+// constString returns the string value of a constant object ("" if it is not a string constant).
+func constString(obj types.Object) string {
+	k, ok := obj.(*types.Const)
+	if !ok {
+		return ""
+	}
+	s := k.Val().ExactString()
+	if len(s) >= 2 && s[0] == '"' {
+		return s[1 : len(s)-1]
+	}
+	return s
+}
